@@ -33,6 +33,18 @@ CLAIMS = {
     "C14": ("vm", "runtime monitoring: differential execution exec_ops vs exec_bytecode from identical states (final Vm, gas, error index) + lock-step check that the op executed at each pc is the op of the list",
             "Random, control-heavy and compute-heavy programs and the control matrices are executed through both OpAccess paths; mapping of byte strings vs parsing is covered by the codec engine stage.",
             "nested child error payloads are not compared", "5 C14"),
+    "C13": ("codec", "runtime monitoring: three independent sources compared pairwise on every input - the generated codec's behaviour, the harness' own reader of asm.yml with its own table-driven decoder, and the pinned opcode table",
+            "All 256 bytes x immediate lengths, all 62x62 opcode pairs, bit-walking Push immediates and every opcode byte at every immediate position (exhaustive), ~10^6 random programs / truncations / bit flips / raw strings: parse result, error kind (InvalidOpcode(b) / NotEnoughBytes), op identity by Debug path, immediate endianness, re-serialisation to the identical bytes, short constants by name.",
+            "pinned/opcodes.tsv was generated from asm.yml at the baseline commit (asm.yml is unchanged since); the Debug rendering of Opcode is used as the op's name", "5 C13"),
+    "C15": ("codec", "runtime monitoring: effect queries compared with a fold over the parsed program for all 64 effect subsets",
+            "For every valid byte string of the codec workload (immediates filled with the six effect opcode bytes, effect ops directly after Push): bytes_contains_any for each of the 64 subsets and analyze() against the set of effect-bearing ops found by parsing; all 64 combinations of present effects occur in every run.",
+            "the six effect-bearing ops are identified by their spec names", "5 C15"),
+    "C17": ("formats", "runtime monitoring: addresses recomputed by an independent encoder (own predicate encoder, own minimal postcard writer, own sort+concat) + metamorphic permutation / perturbation checks + bucketing of all pre-hash byte strings of a run",
+            "Per round a predicate, program, contract, solution and set within limits: address == SHA-256(harness-computed pre-hash bytes); encoded_size == actual length; all helper entry points agree; permutation of predicates / solutions leaves the address unchanged; every single-field or near-collision perturbation (word moved between key and value or between slots, duplicated member, salt bit) changes the hashed bytes; no two distinct values of the run share pre-hash bytes.",
+            "SHA-256 collision resistance; predicates above the limits (all-zero address by design) are out of scope", "5 C17"),
+    "C18": ("formats", "runtime monitoring: round-trip identities over random and boundary values through every codec (wire, words/bytes/hex, Display/FromStr, JSON, postcard) + own slice rule for node_edges",
+            "decode(encode(x)) == x for predicates (0..1000 nodes/edges, any edge_start) and mutation lists; words<->bytes<->hex; 32/64/65-byte array conversions in both directions; JSON and postcard round trips of Contract, SignedContract, Predicate, Program, Solution, SolutionSet, Mutation, ContentAddress, PredicateAddress, Signature; hex-string form in human-readable formats; legacy field names; node_edges(i) against the documented slice for every index.",
+            "serde_json and postcard themselves are trusted", "5 C18"),
 }
 
 NOT_YET = "check not built yet (work in progress; technique family unchanged: runtime monitoring)"
@@ -69,6 +81,10 @@ manifest = {
     "engines": [
         {"name": "vm", "path": "harness/vh/src/vmengine.rs", "serves_properties": ["C05", "C07", "C08", "C09", "C10", "C11", "C12", "C14"],
          "kind_free_text": "real Vm::exec under the after_op monitor, judged against a spec-derived reference model"},
+        {"name": "codec", "path": "harness/vh/src/codec.rs", "serves_properties": ["C13", "C14", "C15"],
+         "kind_free_text": "byte strings through from_bytes / to_bytes / BytecodeMapped / effects, judged against an own asm.yml reader and the pinned table"},
+        {"name": "formats", "path": "harness/vh/src/formats.rs", "serves_properties": ["C17", "C18"],
+         "kind_free_text": "hash / types crates driven with random and boundary values, judged against independent encoders and round-trip identities"},
     ],
     "checks": checks,
     "notes": "All checks: exit 0 held / exit 1 with VIOLATION lines / exit 2 inconclusive (never a VIOLATION). VERIF_SEED and VERIF_TIER are honoured. Known findings: known_findings.json (D2 for C04, D11 for C05).",
